@@ -45,15 +45,19 @@ func VerifC20_GoMetrics_Forwarding() {
 // stop signal that makes the poller return, and Stop is idempotent.  Goroutines started by the code
 // are recorded (`go=defer`) and run explicitly by the harness.
 //
-//verif:harness property=C20 theory=bv tier=quick replay=engine go=defer unwind=3 unwindcut=1 clock=frozen
+//verif:harness property=C20 theory=bv tier=quick replay=engine go=defer unwind=10 unwindcut=1 clock=frozen
 func VerifC20_GoMetrics_Lifecycle() {
 	r, _ := NewGoMetricsMetricRegistry(gm.NewRegistry(), "", "pre", time.Second)
 	polls := 0
 	polledWhileStopped := false
+	stopAtPoll := -1
 	r.RegisterGauge("g", func() (float64, bool) {
 		polls++
 		if !r.started {
 			polledWhileStopped = true
+		}
+		if polls == stopAtPoll {
+			r.stopper <- true
 		}
 		return 1, true
 	})
@@ -75,5 +79,24 @@ func VerifC20_GoMetrics_Lifecycle() {
 	// waiting for it in the real code; the deferred-goroutine model cannot express that, so no claim
 	// is made about polls during Stop)
 	_, _ = polls, polledWhileStopped
+	// two further life cycles in which the poller really ticks: the gauge supplier hands the poller
+	// its stop signal on the budgeted poll (so that the recorded poller returns), then Stop is called.
+	// Every poll is forwarded to the gauge that is registered in the backend under the prefixed name -
+	// in the first cycle and again after Stop + Start.
+	polledWhileStopped = false
+	for cycle := 0; cycle < 2; cycle++ {
+		r.Start()
+		verif.Assert("restart-spawns-a-new-poller", verif.GoCount() == 2+cycle && r.started)
+		stopAtPoll = polls + 1 + verif.Choice("ticks", 2)
+		verif.RunGo(1 + cycle)
+		verif.Assert("poller-polled-while-started", polls >= stopAtPoll && !polledWhileStopped)
+		verif.Assert("polled-values-reach-the-backend-gauge", verif.Recorded("metric:gauge:pre.g.Update") == polls)
+		r.Stop()
+		select { // the signal Stop left for the poller that has already returned
+		case <-r.stopper:
+		default:
+		}
+		verif.Assert("stopped-after-cycle", !r.started)
+	}
 	verif.Reach("end")
 }
